@@ -1119,3 +1119,15 @@ def _json_from_str(m, args, ci):
 @I.rx(r'^std::io::(error::)?Error::(new|other)$|^std::io::(error::)?Error::from$')
 def _io_error_new(m, args, ci):
     return Opaque('io::Error', None)
+
+@I.rx(r'^<(std::string::)?String as Default>::default$')
+def _string_default(m, args, ci):
+    return Seq([], 'str')
+
+@I.rx(r'^<(std::vec::)?Vec as Default>::default$')
+def _vec_default(m, args, ci):
+    return Seq([], 'vec')
+
+@I.rx(r'^<(std::option::)?Option as Default>::default$')
+def _option_default(m, args, ci):
+    return none()
